@@ -175,6 +175,22 @@ func init() {
 				e.Violate(key, fmt.Sprintf("%s: Go yields %q, the template rendered %q (%s %s)", t.src, t.want, o.Out, o.Class, firstLine(o.Msg)), map[string]interface{}{"case": c.Tmpl, "observed": o})
 			}
 		}
+		// the same chained index path evaluated several times in one scope while the index variable
+		// changes (loop variable, reassignment): each evaluation must use the current value
+		for _, t := range [][2]string{
+			{`<%= for (i) in [0, 1] { %><%= x.A[0].A[i].Name %>|<% } %>`, "x.A[0].A[0]|x.A[0].A[1]|"},
+			{`<%= for (i) in [1, 0, 1] { %><%= x.A[i].A[0].Name %>,<%= x.A[1].A[i].Name %>|<% } %>`, "x.A[1].A[0],x.A[1].A[1]|x.A[0].A[0],x.A[1].A[0]|x.A[1].A[0],x.A[1].A[1]|"},
+			{`<% let i = 0 %><%= x.A[1].A[i].Name %>|<% i = 1 %><%= x.A[1].A[i].Name %>|<% i = 0 %><%= x.A[0].A[i].Name %>`, "x.A[1].A[0]|x.A[1].A[1]|x.A[0].A[0]"},
+			{`<% let k = "k" %><%= x.A[0].M[k].Name %>|<% k = "zz" %><%= x.A[0].M[k].Name %>|<% k = "k" %><%= x.A[0].M[k].Name %>`, `x.A[0].M["k"]||x.A[0].M["k"]`},
+			{`<% let f = fn(i) { return x.A[0].A[i].Name } %><%= f(0) %>|<%= f(1) %>|<%= f(0) %>`, "x.A[0].A[0]|x.A[0].A[1]|x.A[0].A[0]"},
+		} {
+			c := RCase{Tmpl: t[0], Binds: binds}
+			o := e.addRenderCase("revisit", c)
+			e.Distinct(t[0])
+			if o.Class != "OK" || o.Out != template.HTMLEscapeString(t[1]) {
+				e.Violate(c11key(t[0], o, o.Out), fmt.Sprintf("%s: Go navigation yields %q, the template rendered %q (%s %s)", t[0], t[1], o.Out, o.Class, firstLine(o.Msg)), map[string]interface{}{"case": c.Tmpl, "observed": o})
+			}
+		}
 		// a navigation that fails in a tolerated position (unknown index variable deeper in the path,
 		// member of a nil entry, inside if / ! / == / ||) must leave later navigations from the
 		// same root untouched
